@@ -1,3 +1,78 @@
 import KsiVerif.Util.DriverMain
-open KsiVerif
-def main : IO Unit := runDriver (fun i _ => "skip no-model-yet " ++ i)
+import KsiVerif.Util.VerifyDrv
+import KsiVerif.Model.SigObject
+/-! Model driver for C11 — protocol in harness/exec_c11.c. -/
+open KsiVerif KsiVerif.Template KsiVerif.Verify KsiVerif.Policy KsiVerif.VerifyDrv
+
+/-- is every level of the input that tiles minimally encoded (the property's "canonical TLV encoding")? -/
+def canonical (raw : Bytes) : Bool :=
+  match Tlv.parseBlob raw with
+  | .ok t => TlvSpec.encode (Tlv.deepen 12 t) == raw
+  | .error _ => false
+
+/-- the model's answer for one verification op; `none` = outside the model (rules beyond the internal ones decide) -/
+def modelVerify (s : Sig) (op : String) : Option String :=
+  match op.splitOn ":" with
+  | [kind, pol, doc, level] =>
+    match level.toNat? with
+    | some lv =>
+      let x : VCtx := ⟨if doc == "-" then none else ofHex doc, lv⟩
+      if pol == "empty" then none
+      else
+        let vi := verifyWith Hreal Gen.policy_internal s x
+        if isOKb vi && pol != "internal" then none
+        else
+          let (mv, ma) := verdictStr x vi
+          some (if kind == "v" then mv else ma)
+    | none => none
+  | _ => none
+
+def kindOf (t : String) : String := ":".intercalate ((t.splitOn ":").take 2)
+
+def handle (inp out : String) : String :=
+  match words inp with
+  | "h" :: sigHex :: ops =>
+    match ofHex sigHex with
+    | none => "skip bad-hex"
+    | some raw =>
+      let outs := words out
+      match parseSignature cfg raw with
+      | .error e => let ms := s!"P{e}"; if ms == out then "ok h:P" else s!"diff h:P model={ms}"
+      | .ok vs =>
+        if outs.headD "?" != "P0" then s!"diff h:P model=P0" else
+        let s := Sig.ofVals cfg.tabs vs
+        let canon := canonical raw
+        let tie := hasTie s
+        let pairs := List.zip ops (outs.drop 1)
+        -- the property itself, judged on the implementation's outputs
+        let viol := pairs.findSome? fun (op, o) =>
+          if (op == "s" || op == "c") then
+            (if canon && o != "S1" && o != "C1" then some s!"serialization-changed-at-op-{op}:{o.take 12}" else none)
+          else if op.startsWith "v:" || op.startsWith "a:" then
+            match o.splitOn "/" with
+            | [h, f] => if h.drop 1 != f.drop 1 then some s!"verdict-on-the-used-object-{h}-differs-from-fresh-{f}" else none
+            | _ => some s!"malformed-output-{o}"
+          else none
+        -- serializations must also agree among themselves whatever the encoding
+        let sers := (pairs.filter fun (op, _) => op == "s" || op == "c").map fun (_, o) => o.drop 1
+        let serViol := if sers.eraseDups.length > 1 then some "serialization-differs-between-two-points-of-the-history" else none
+        match viol.orElse (fun _ => serViol) with
+        | some why => s!"specfail h:{ops.length} {why}"
+        | none =>
+          let bad := pairs.findSome? fun (op, o) =>
+            if op.startsWith "v:" || op.startsWith "a:" then
+              match modelVerify s op with
+              | some m =>
+                let h := (o.splitOn "/").headD "?"
+                if m == h then none
+                else if tie && kindOf m == kindOf h then none
+                else some s!"{op.take 40}:impl={h}:model={m}"
+              | none => none
+            else none
+          let kinds := ",".intercalate ((ops.map fun o => (o.splitOn ":").headD "?").eraseDups)
+          match bad with
+          | some d => s!"diff h:{kinds} {d}"
+          | none => s!"ok h:{kinds}:{if canon then "canonical" else "noncanonical"}"
+  | _ => "skip unknown-op"
+
+def main : IO Unit := runDriver handle
